@@ -82,10 +82,10 @@ package key_certificate
 // ---- parsing
 
 //@ contract NewKeyCertificate(bytes []byte) (key_certificate *KeyCertificate, remainder []byte, err error)
-//@   ensures @C08 fresh(key_certificate.SpkType) && fresh(key_certificate.CpkType) && fresh(certificate.CertPayload(&key_certificate.Certificate)) && fresh(certificate.CertKind(&key_certificate.Certificate)) && fresh(certificate.CertLenBytes(&key_certificate.Certificate))
+//@   ensures @C08 fresh(key_certificate.SpkType) && fresh(key_certificate.CpkType) && fresh(certificate.CertPayload(&key_certificate.Certificate)) && fresh(certificate.CertKind(&key_certificate.Certificate)) && fresh(certificate.CertLenBytes(&key_certificate.Certificate)) && disjoint(certificate.CertKind(&key_certificate.Certificate), certificate.CertLenBytes(&key_certificate.Certificate), certificate.CertPayload(&key_certificate.Certificate))
 //@   ensures @C01 @C03 (err == nil) == (len(bytes) >= 3 && u16(bytes[1:3]) <= len(bytes)-3 && bytes[0] == 5 && u16(bytes[1:3]) >= 4)
 //@   ensures @C03 err == nil ==> suffix(remainder, bytes, 3+u16(bytes[1:3]))
-//@   ensures @C01 err == nil ==> KeyCertInv(key_certificate) && seqeq(certificate.CertWire(&key_certificate.Certificate), bytes[:3+u16(bytes[1:3])])
+//@   ensures @C01 err == nil ==> KeyCertInv(key_certificate) && seqeq(certificate.CertKind(&key_certificate.Certificate), bytes[0:1]) && seqeq(certificate.CertLenBytes(&key_certificate.Certificate), bytes[1:3]) && seqeq(certificate.CertPayload(&key_certificate.Certificate), bytes[3:])
 //@   ensures @C01 @C10 err == nil ==> certificate.CertType(&key_certificate.Certificate) == 5
 //@   ensures @C01 @C10 err == nil ==> SigType(key_certificate) == u16(bytes[3:5])
 //@   ensures @C01 @C10 err == nil ==> CryptoType(key_certificate) == u16(bytes[5:7])
@@ -95,7 +95,7 @@ package key_certificate
 //@ contract KeyCertificateFromCertificate(cert *certificate.Certificate) (kc *KeyCertificate, err error)
 //@   requires cert == nil || certificate.CertInv(cert)
 //@   ensures @C19 (err == nil) == (cert != nil && certificate.CertType(cert) == 5 && certificate.CertLen(cert) >= 4 && len(certificate.CertPayload(cert)) >= 4)
-//@   ensures @C19 err == nil ==> KeyCertInv(kc) && seqeq(certificate.CertWire(&kc.Certificate), certificate.CertWire(cert)) && SigType(kc) == u16(certificate.CertPayload(cert)[0:2]) && CryptoType(kc) == u16(certificate.CertPayload(cert)[2:4])
+//@   ensures @C19 err == nil ==> KeyCertInv(kc) && same(certificate.CertKind(&kc.Certificate), certificate.CertKind(cert)) && same(certificate.CertLenBytes(&kc.Certificate), certificate.CertLenBytes(cert)) && same(certificate.CertPayload(&kc.Certificate), certificate.CertPayload(cert)) && within(kc.SpkType, certificate.CertPayload(cert)) && within(kc.CpkType, certificate.CertPayload(cert)) && SigType(kc) == u16(certificate.CertPayload(cert)[0:2]) && CryptoType(kc) == u16(certificate.CertPayload(cert)[2:4])
 //@   ensures err != nil ==> kc == nil
 //@   modifies nothing
 
